@@ -156,3 +156,15 @@ CHECKS["C15"] = dict(
           "Differences explained by the recorded C06-asymmetric-typeorder mechanism (an applicable pair of registered types with non-mirror typeorder in "
           "BOTH functions) are excused per probe. Defect fixed: 47abe4c (Literal bound from first value)."),
 )
+
+CHECKS["C16"] = dict(
+    engine="symx", category="model_checking", design_ref="DESIGN.md §6 C16",
+    technique="symbolic execution of the real copy / variant / add_mixins / register / unregister / lock / propagate code over a symbolic hierarchy and priorities (z3) along enumerated operation histories; reference ledger + flat-function differential oracle",
+    text=("Histories of create / copy / variant / add-mixin / register / unregister / use operations over up to four functions (with and without "
+          "linkback) run once per class of (hierarchy, priorities). A ledger kept by the harness predicts, for every modification, whether it must be "
+          "refused (the node is an ancestor, through a path containing a non-linked step, of a function already used) or accepted and visible in every "
+          "used descendant reached through linkback; every use and the final use of every node must equal a fresh underived function built from the "
+          "node's flattened method list (parents first, own last, own replacing identical signatures) under the same model."),
+    note=("Bounds: <= 4 nodes, pool of 6 methods, histories of 4-7 operations (quick: 500 random + 112 structured derivation chains; thorough: 8000 random, "
+          "5-9 operations), forests with fan-in <= 2 without diamonds. Two defects found by this check were repaired (4f35687, 0977ac3)."),
+)
